@@ -21,12 +21,16 @@ Unpadded(k) == LeftEnc(W) + EncString(k)
 Pad(k) == IF Fixed THEN (W - (Unpadded(k) % W)) % W ELSE W - (Unpadded(k) % W)
 
 PadOK(k) == (Unpadded(k) + Pad(k)) % W = 0 /\ Pad(k) \in 0..(W - 1)
-Boundary == {k \in 0..MaxKey : Unpadded(k) % W = 0}
+\* key lengths looked at: 0..MaxKey, and windows around the lengths where left_encode(8*|K|) grows by a byte
+\* (8*|K| = 2^16 at |K| = 8192, 2^24 at |K| = 2097152): the header of the encoded key is 3, 4, 5 bytes long
+Window   == (0..MaxKey) \cup (8000..8600) \cup (2096900..2097500)
+Boundary == {k \in Window : Unpadded(k) % W = 0}
+HeaderGrows == \A k \in Window : LeftEnc(8 * k) = (IF 8 * k < 256 THEN 2 ELSE IF 8 * k < 65536 THEN 3 ELSE IF 8 * k < 16777216 THEN 4 ELSE 5)
 
 VARIABLE key
-Init == key \in 0..MaxKey
+Init == key \in Window
 Next == UNCHANGED key
 Spec == Init /\ [][Next]_key
-Holds == PadOK(key)
+Holds == PadOK(key) /\ (key = 0 => HeaderGrows)
 Emit == key = 0 => PrintT(<<"CASE", ToJson([boundary |-> Boundary])>>)
 =============================================================================
